@@ -18,11 +18,30 @@ inductive Inp where
   | logs (sig : String) (sz : Sizer) (max : Int) (p : List Res)
   | metrics (sz : Sizer) (max : Int) (p : List MRes)
 
+/-- the receiver's elements (id, weight in items) and whether there was a second request: for the oracle of the
+criterion `Consume` uses on the results of a real MergeSplit -/
+structure Split where
+  r1 : List (Nat × Nat) := []
+  r2 : List (Nat × Nat) := []
+  merged : Bool := false
+
 structure MS where
   inp : Inp := .none
   impl : List OutReq := []     -- reversed
   implDiverged : Bool := false
   bad : Option String := none
+  split : Split := {}
+
+/-- `Consume` decides with `ItemsCount(first result) > ItemsCount(pending batch)` whether the first result holds part of
+the new request.  Checked on the REAL results (ids; elements that weigh no item - a profile without samples - hold nothing
+that counts; cases with id-less zero-length elements are skipped: their ids do not tell the two requests apart). -/
+def checkCriterion (name : String) (sp : Split) (first : List (Nat × Nat)) : List String :=
+  if !sp.merged || (sp.r1 ++ sp.r2).any (fun x => x.1 == 0) then [] else
+  let w := fun (l : List (Nat × Nat)) => (l.map (·.2)).sum
+  let holdsNew := first.any (fun x => x.2 > 0 && sp.r2.any (fun y => y.1 == x.1))
+  let grew := w first > w sp.r1
+  [ if holdsNew == grew then "prop criterion=ok"
+    else s!"prop criterion=FAIL sig=C04/mergesplit/first-result-criterion-wrong/{name} items_first={w first} items_pending={w sp.r1} holds_new={holdsNew}" ]
 
 def showReqs {P : Type} (o : Ops P) (showP : P → String) (rs : Option (List (Req P))) : List String :=
   match rs with
@@ -53,7 +72,10 @@ def checkLogs (sig : String) (sz : Sizer) (max : Int) (src : List Res) (outs : L
       if ids a == ids b then "prop fifo=ok" else s!"prop fifo=FAIL sig=C04/mergesplit/not-fifo/{sig}-{szName sz}",
       -- items that weigh nothing in the configured unit (a profile without samples under the items sizer) do not count
       match (outs.zip ps).find? (fun (o, p) => max != 0 && o.sz > max && ((flatten p).filter (fun c => itemSize sz c.2.2 > 0)).length > 1) with
-      | some (o, p) => s!"prop bound=FAIL sig=C04/mergesplit/batch-exceeds-max/{sig}-{szName sz} size={o.sz} max={max} items={(flatten p).length}"
+      | some (o, p) =>
+        -- elements whose own encoding is empty still take tag + length inside their parent: named separately
+        let zl := if sz.bytes && (flatten p).any (fun c => c.2.2.bsz == 0) then "-zero-length-elements" else ""
+        s!"prop bound=FAIL sig=C04/mergesplit/batch-exceeds-max/{sig}-{szName sz}{zl} size={o.sz} max={max} items={(flatten p).length}"
       | Option.none => "prop bound=ok",
       match (outs.zip ps).find? (fun (o, p) => o.cs != -1 && o.cs != payloadSize sz p) with
       | some (o, p) => s!"prop cached=FAIL sig=C04/mergesplit/cached-size-wrong/{sig}-{szName sz} cached={o.cs} size={payloadSize sz p}"
@@ -100,7 +122,9 @@ def checkMetrics (sz : Sizer) (max : Int) (src : List MRes) (outs : List OutReq)
       else s!"prop conserve=FAIL sig=C04/mergesplit/points-lost-or-duplicated/metrics-{szName sz}",
       if ids a == ids b then "prop fifo=ok" else s!"prop fifo=FAIL sig=C04/mergesplit/not-fifo/metrics-{szName sz}",
       match over.find? (fun x => !explained x), over.head? with
-      | some (o, p), _ => s!"prop bound=FAIL sig=C04/mergesplit/batch-exceeds-max/metrics-{szName sz} size={o.sz} max={max} items={(mflatten p).length}"
+      | some (o, p), _ =>
+        let zl := if sz.bytes && (mflatten p).any (fun c => c.2.2.2.bsz == 0) then "-zero-length-elements" else ""
+        s!"prop bound=FAIL sig=C04/mergesplit/batch-exceeds-max/metrics-{szName sz}{zl} size={o.sz} max={max} items={(mflatten p).length}"
       | Option.none, some (o, p) =>
         s!"prop bound=FAIL sig=C04/mergesplit/batch-exceeds-max/metrics-bytes-empty-fragment size={o.sz} max={max} without_fragments={mpayloadSize sz (stripFragments p)}"
       | Option.none, Option.none => "prop bound=ok",
@@ -132,14 +156,16 @@ def msHandler : Handler MS where
               | some p1, some p2 =>
                 let o := metricsOps keep sz
                 let r := mergeSplit o max { p := p1, cached := c1 } (c2.map (fun c => { p := p2, cached := c }))
-                ({ s with inp := .metrics sz max (p1 ++ p2) }, showReqs o Codec.showMPayload r)
+                let iw := fun (p : List MRes) => (mflatten p).map (fun c => (c.2.2.2.id, 1))
+                ({ s with inp := .metrics sz max (p1 ++ p2), split := ⟨iw p1, iw p2, c2.isSome⟩ }, showReqs o Codec.showMPayload r)
               | _, _ => (s, ["obs bad-op"])
             else
               match Codec.parsePayload t1, Codec.parsePayload t2 with
               | some p1, some p2 =>
                 let o := logsOps sz
                 let r := mergeSplit o max { p := p1, cached := c1 } (c2.map (fun c => { p := p2, cached := c }))
-                ({ s with inp := .logs sig sz max (p1 ++ p2) }, showReqs o Codec.showPayload r)
+                let iw := fun (p : List Res) => (flatten p).map (fun c => (c.2.2.id, c.2.2.w))
+                ({ s with inp := .logs sig sz max (p1 ++ p2), split := ⟨iw p1, iw p2, c2.isSome⟩ }, showReqs o Codec.showPayload r)
               | _, _ => (s, ["obs bad-op"])
         | _, _, _, _, _ => (s, ["obs bad-op"])
       | _ => (s, ["obs bad-op"])
@@ -166,8 +192,16 @@ def msHandler : Handler MS where
     | Option.none =>
       match s.inp with
       | .none => []
-      | .logs sig sz max p => checkLogs sig sz max p s.impl.reverse
-      | .metrics sz max p => checkMetrics sz max p s.impl.reverse
+      | .logs sig sz max p =>
+        checkLogs sig sz max p s.impl.reverse ++
+          (match s.impl.reverse.head?.bind (fun o => Codec.parsePayload o.toks) with
+           | some f => checkCriterion s!"{sig}-{szName sz}" s.split ((flatten f).map (fun c => (c.2.2.id, c.2.2.w)))
+           | Option.none => [])
+      | .metrics sz max p =>
+        checkMetrics sz max p s.impl.reverse ++
+          (match s.impl.reverse.head?.bind (fun o => Codec.parseMPayload o.toks) with
+           | some f => checkCriterion s!"metrics-{szName sz}" s.split ((mflatten f).map (fun c => (c.2.2.2.id, 1)))
+           | Option.none => [])
 
 /-! ### batcher -/
 
